@@ -36,7 +36,6 @@ ID = "C17"
 LEVEL = "other"
 TRANSLATORS = ["cli"]
 MODEL_TARGETS = ["theories/Cli.vo"]
-NOT_CLAIMED = "in progress"
 LEVEL_TEXT = ("Partial proof + differential runs. Proved in Coq (closed, no axioms): for all 640 flag shapes (mode absent/F/L/f/l x "
               "fin, strict, no_save, out, no_cpp, silent, info), every non-empty input path and every --out string, the model of "
               "__parse_args + main() -- an interpreter of the option table and plumbing table regenerated from __main__.py on each run -- "
